@@ -69,7 +69,7 @@ def main(tier, seed, t0):
     g = G.load(gd)
     qs = G.all_quotes(g)
     n_t = 0
-    sib = G.sibling_imports(qs)
+    sib = G.sibling_imports(qs, os.path.join(runner.X.REPO, 'src'))
     for q in qs:
         n_t += 1
         fs = G.lint_template(q, sib.get((q['file'], q['fn']), ()) if q['parsed'] and q['parsed']['wrapper'] in ('arms', 'expr', 'exprs', 'type', 'stmts') else ())
